@@ -1,5 +1,6 @@
-/- Helper lemmas for C18. -/
+/- Helper lemmas for C18 (umbrella file; the lemmas live in C18Id / C18Bits / C18Order / C18Knn). -/
 import DhtVerif.Model.Containers
-namespace Dht
-
-end Dht
+import DhtVerif.Lemmas.C18Id
+import DhtVerif.Lemmas.C18Bits
+import DhtVerif.Lemmas.C18Order
+import DhtVerif.Lemmas.C18Knn
